@@ -29,7 +29,20 @@ def _record_one(job):
     mod = importlib.import_module(modname)
     run_kw = getattr(mod, fn)(seed, **kw)
     meta = run_kw.pop('meta', None)
-    t = _recorder().run(ident=f'{gen}/{seed}', **run_kw)
+    import signal
+
+    def _alarm(signum, frame):
+        from .observe import HarnessAbort
+        r = _recorder()
+        r.truncated = r.aborted = True
+        raise HarnessAbort('wall-clock budget of one execution exceeded')
+    old = signal.signal(signal.SIGALRM, _alarm)
+    signal.setitimer(signal.ITIMER_REAL, 60)
+    try:
+        t = _recorder().run(ident=f'{gen}/{seed}', **run_kw)
+    finally:
+        signal.setitimer(signal.ITIMER_REAL, 0)
+        signal.signal(signal.SIGALRM, old)
     t['meta'] = meta
     t['final'] = {'ret0_changed': _recorder().ret0_changed}
     return t
@@ -75,7 +88,7 @@ def clause_violates(prop: str, failed: set, ev: dict | None, expected: dict | No
     if prop == 'C01':
         return bool(failed & {'depth', 'pc', 'returned', 'verdict', 'end', 'exc', 'code', 'callcount', 'short'})
     if prop == 'C07':
-        if failed & {'limits', 'bounds', 'alloc', 'short'}:
+        if failed & {'limits', 'bounds', 'alloc', 'short', 'callcount'}:
             return True
         if 'exc' in failed:
             if logged in INTERPRETER_FAILURES:
@@ -109,34 +122,36 @@ def check_traces(rep: Report, traces: list, label: str, shards: int = 12):
         v = verdicts[i]
         nontrivial = len(t['ev']) > 2
         rep.case(t['id'], nontrivial)
-        if t['outcome'].get('truncated') and v['failed'].strip() == 'short':
-            # a long (but bounded) execution cut at the event budget: the validated prefix counts
+        fails = [f for f in v['failures']
+                 if not (t['outcome'].get('truncated') and f['failed'].strip() == 'short')]
+        if not fails:
             rep.traces += 1
-            rep.extra['truncated_prefixes'] = rep.extra.get('truncated_prefixes', 0) + 1
+            if t['outcome'].get('truncated'):
+                # a long (but bounded) execution cut at the event budget: the validated prefix counts
+                rep.extra['truncated_prefixes'] = rep.extra.get('truncated_prefixes', 0) + 1
             continue
-        if v['ok']:
-            rep.traces += 1
-            continue
-        step = v['step']
-        ev = t['ev'][step - 1] if step <= len(t['ev']) else None
-        failed = set(v['failed'].split())
-        if 'exc' in failed and (v.get('expected') or {}).get('exc') in ('PRIMMISS', 'BADHINT'):
-            raise tlc.MachineryError(f"reference primitive missing for trace {t['id']} step {step} op "
-                                     f"{ev.get('op') if ev else None}")
-        name = known_signature(rep.prop, failed, ev, t)
-        if name:
-            rep.known_finding(name, f"trace {t['id']} step {step}: logged {ev.get('exc') if ev else ''}")
-            continue
-        what = (f"trace {t['id']} rejected at step {step} ({label}): clauses {sorted(failed)}; "
-                f"instruction op={ev.get('op') if ev else None} kind={ev.get('k') if ev else None}; "
-                f"spec expected {json.dumps(v.get('expected'))[:300]}; "
-                f"implementation logged {json.dumps({k: ev[k] for k in ('d', 'pc', 'keep', 'pushed', 'exc', 'ret', 'plug') if ev and k in ev})[:300]}")
-        if clause_violates(rep.prop, failed, ev, v.get('expected')):
-            rep.violation(what, {'kind': 'trace', 'id': t['id'], 'cfg': t['cfg'], 'step': step,
-                                 'failed': sorted(failed)})
-        else:
-            rep.note('outside this property: ' + what[:300])
-            rep.extra['unrelated_rejections'] = rep.extra.get('unrelated_rejections', 0) + 1
+        rep.extra['resyncs'] = rep.extra.get('resyncs', 0) + sum(1 for f in fails if not f.get('final'))
+        for f in fails:
+            step = f['step']
+            ev = t['ev'][step - 1] if step <= len(t['ev']) else None
+            failed = set(f['failed'].split())
+            if 'exc' in failed and (f.get('expected') or {}).get('exc') in ('PRIMMISS', 'BADHINT'):
+                raise tlc.MachineryError(f"reference primitive missing for trace {t['id']} step {step} op "
+                                         f"{ev.get('op') if ev else None}")
+            name = known_signature(rep.prop, failed, ev, t)
+            if name:
+                rep.known_finding(name, f"trace {t['id']} step {step}: logged {ev.get('exc') if ev else ''}")
+                continue
+            what = (f"trace {t['id']} rejected at step {step} ({label}): clauses {sorted(failed)}; "
+                    f"instruction op={ev.get('op') if ev else None} kind={ev.get('k') if ev else None}; "
+                    f"spec expected {json.dumps(f.get('expected'))[:300]}; "
+                    f"implementation logged {json.dumps({k: ev[k] for k in ('d', 'pc', 'keep', 'pushed', 'exc', 'ret', 'plug') if ev and k in ev})[:300]}")
+            if clause_violates(rep.prop, failed, ev, f.get('expected')):
+                rep.violation(what, {'kind': 'trace', 'id': t['id'], 'cfg': t['cfg'], 'step': step,
+                                     'failed': sorted(failed)})
+            else:
+                rep.note('outside this property: ' + what[:300])
+                rep.extra['unrelated_rejections'] = rep.extra.get('unrelated_rejections', 0) + 1
 
 
 def mc_family(rep: Report, family: str, depth: int, *, replay_filter=None, timeout=3000, **replay_opts):
@@ -189,7 +204,7 @@ def replay_one(path: str, prop: str) -> int:
         gen, seed = obj['id'].rsplit('/', 1)
         t = _record_one((gen, int(seed), obj.get('genkw', {})))
         verdicts, _ = vmtrace.validate([t], shards=1)
-        print(json.dumps(verdicts[0])[:2000])
+        print(json.dumps(verdicts[0]['failures'])[:2000])
         return 0 if verdicts[0]['ok'] else 1
     print('nothing to replay for', obj.get('kind'))
     return 2
